@@ -390,10 +390,36 @@ pub fn supervise(check: &str, tier: &str) -> i32 {
         lines.push(format!("KNOWN-FINDING: property={} {} [{}; {} of {} runs; example {}]", check, k.what, id, count, evaluations, path.display()));
     }
     let mut nviol = 0;
+    crate::interp::install_quiet_panic_hook();
     for (i, (run, viol, res)) in unknown.iter().enumerate() {
         nviol += 1;
         if i < 5 {
             let path = replay_dir.join(format!("{}-{}-{}.json", check, seed, run));
+            // minimise (not for aborts / hangs: they would take this process down)
+            let kind = viol["kind"].as_str().unwrap_or("").to_string();
+            let mut res = res.clone();
+            if kind != "abort" && kind != "hang" && std::env::var("VERIF_NO_SHRINK").is_err() {
+                if let (Ok(program), Ok(config)) = (
+                    serde_json::from_value::<crate::dsl::Program>(res["case"]["program"].clone()),
+                    serde_json::from_value::<crate::dsl::Config>(res["case"]["config"].clone()),
+                ) {
+                    let case = Case { program, config };
+                    let sh = crate::shrink::shrink(check, tier, &case, seed, *run, &kind, viol["known"].as_str(), 250);
+                    if sh.ops_after < sh.ops_before {
+                        let rep = judge(check, tier, &sh.case, seed, *run);
+                        res["minimised"] = json!({
+                            "program_text": sh.case.program.text(),
+                            "case": {"program": sh.case.program, "config": sh.case.config},
+                            "violations": rep.violations,
+                            "ops_before": sh.ops_before,
+                            "ops_after": sh.ops_after,
+                            "evaluations": sh.evaluations,
+                        });
+                        println!("  minimised run {} from {} to {} ops: {}", run, sh.ops_before, sh.ops_after, sh.case.program.text());
+                    }
+                }
+            }
+            let res = &res;
             write_replay(&path, check, tier, seed, *run, res);
             println!("  violation kind={} run={} : {}", viol["kind"].as_str().unwrap_or("?"), run, viol["detail"].as_str().unwrap_or(""));
             println!("  program: {}", res["program"].as_str().unwrap_or(""));
@@ -476,6 +502,7 @@ fn write_replay(path: &std::path::Path, check: &str, tier: &str, seed: u64, run:
         "program_text": res["program"],
         "case": res["case"],
         "violations": res["violations"],
+        "minimised": res["minimised"],
     });
     let _ = std::fs::write(path, serde_json::to_string_pretty(&v).unwrap());
 }
@@ -501,15 +528,17 @@ pub fn replay(file: &str) -> i32 {
     let tier = v["tier"].as_str().unwrap_or("quick").to_string();
     let seed = v["verif_seed"].as_u64().unwrap_or(1);
     let run = v["run"].as_u64().unwrap_or(0);
-    let program: crate::dsl::Program = match serde_json::from_value(v["case"]["program"].clone()) {
+    // the minimised case, when there is one, is what gets replayed
+    let src = if v["minimised"].is_object() { &v["minimised"] } else { &v };
+    let program: crate::dsl::Program = match serde_json::from_value(src["case"]["program"].clone()) {
         Ok(p) => p,
         Err(e) => {
             eprintln!("bad program in replay file: {}", e);
             return 2;
         }
     };
-    let config: crate::dsl::Config = serde_json::from_value(v["case"]["config"].clone()).unwrap_or_default();
-    let kinds: Vec<String> = v["violations"]
+    let config: crate::dsl::Config = serde_json::from_value(src["case"]["config"].clone()).unwrap_or_default();
+    let kinds: Vec<String> = src["violations"]
         .as_array()
         .map(|a| a.iter().filter_map(|x| x["kind"].as_str().map(String::from)).collect())
         .unwrap_or_default();
